@@ -14,7 +14,8 @@ same `Bytes`, because C15 and C18 are about their (dis)agreement.
                        state or report anything (the gates that make a frame inert)
 * `rawFilterExtract`   huginn-net-{tcp,http,tls}/src/raw_filter.rs `extract_quick_info` (identical x3; after
                        the fixes 68f354c — ports at max(ihl*4,20) — and 1765a5f — `1e 00` loopback header)
-* `hashInputTcp/Http/Tls`  the three packet_hash.rs: which bytes / fields are fed to the hasher
+* `locateIp`, `hashInputTcp/Http/Tls`  the three packet_hash.rs (after fix C18 — the hashers locate the
+                       IP header as `parse_packet` does): which bytes / fields are fed to the hasher
 
 Everything is total: every index is guarded by the same length test the Rust code performs, so the
 default of `getD` is never observed on a path the code can take (C01 is about that; here the
@@ -294,20 +295,58 @@ inductive HashIn
   | flow (a b : Bytes) (p q : Nat)
   deriving DecidableEq, Repr
 
-/-- The "Ethernet header present" test shared by the three hashers. -/
-def looksEth (p : Bytes) : Bool :=
-  decide (14 < p.length) && (decide (be16 p 12 = 0x0800) || decide (be16 p 12 = 0x86DD))
+/-- Where each framing puts the IP header. -/
+def Framing.offset : Framing → Nat
+  | .eth => 14
+  | .raw => 0
+  | .null => 4
 
-def ipStart (p : Bytes) : Nat := if looksEth p then 14 else 0
+/-! `locate_ip` (textually identical in the three hashers, checked by `ex_wire.py`; fix C18): the
+three strategies of `parse_packet` in the same order with the same length guards, returning the offset
+of the IP header and the IP version the parser decides on. Written as the Rust is written (guards on
+`packet.len()`, not on the remaining slice), *not* by calling `parsePacket`: that the two agree on every
+byte string is theorem `locateIp_eq_parse` (Lemmas/Wire.lean). -/
 
-/-- TCP `hash_source_ip`: source address bytes, else the whole frame. -/
+/-- `if packet.len() >= 14 { match be16(12) { 0x0800 if len >= 34 => …, 0x86DD if len >= 54 => …, _ => {} } }` -/
+def locEth (p : Bytes) : Option (Nat × IpVer) :=
+  if p.length < 14 then none
+  else if be16 p 12 = 0x0800 ∧ 34 ≤ p.length then some (14, .v4)
+  else if be16 p 12 = 0x86DD ∧ 54 ≤ p.length then some (14, .v6)
+  else none
+
+/-- `if packet.len() >= 20 { match packet[0] >> 4 { 4 => …, 6 if len >= 40 => …, _ => {} } }` -/
+def locRaw (p : Bytes) : Option (Nat × IpVer) :=
+  if p.length < 20 then none
+  else if byte p 0 / 16 = 4 then some (0, .v4)
+  else if byte p 0 / 16 = 6 ∧ 40 ≤ p.length then some (0, .v6)
+  else none
+
+/-- `if packet.len() >= 24 && packet[0] == 0x1e && packet[1] == 0x00 { match packet[4] >> 4 { 4 => …,
+6 if len >= 44 => …, _ => {} } }` -/
+def locNull (p : Bytes) : Option (Nat × IpVer) :=
+  if p.length < 24 ∨ byte p 0 ≠ 0x1e ∨ byte p 1 ≠ 0 then none
+  else if byte p 4 / 16 = 4 then some (4, .v4)
+  else if byte p 4 / 16 = 6 ∧ 44 ≤ p.length then some (4, .v6)
+  else none
+
+def locateIp (p : Bytes) : Option (Nat × IpVer) :=
+  match locEth p with
+  | some r => some r
+  | none =>
+    match locRaw p with
+    | some r => some r
+    | none => locNull p
+
+/-- TCP `hash_source_ip`: source address bytes of the located IP header, else the whole frame. -/
 def hashInputTcp (p : Bytes) : HashIn :=
-  if p.length < ipStart p + 20 then .bytes p
-  else
-    let ip := p.drop (ipStart p)
-    if byte ip 0 / 16 = 4 then (if 16 ≤ ip.length then .bytes (slice ip 12 4) else .bytes p)
-    else if byte ip 0 / 16 = 6 then (if 24 ≤ ip.length then .bytes (slice ip 8 16) else .bytes p)
-    else .bytes p
+  match locateIp p with
+  | none => .bytes p
+  | some (off, .v4) =>
+    let ip := p.drop off
+    if 16 ≤ ip.length then .bytes (slice ip 12 4) else .bytes p
+  | some (off, .v6) =>
+    let ip := p.drop off
+    if 24 ≤ ip.length then .bytes (slice ip 8 16) else .bytes p
 
 /-- lexicographic comparison of byte slices (`<[u8] as Ord>::cmp`). -/
 def bytesCmp : Bytes → Bytes → Ordering
@@ -345,12 +384,14 @@ def hashV6FlowHttp (ip : Bytes) : HashIn :=
 
 /-- HTTP `hash_flow`. -/
 def hashInputHttp (p : Bytes) : HashIn :=
-  if p.length < ipStart p + 40 then .bytes p
-  else
-    let ip := p.drop (ipStart p)
-    if byte ip 0 / 16 = 4 then hashV4FlowHttp ip
-    else if byte ip 0 / 16 = 6 then hashV6FlowHttp ip
-    else .bytes p
+  match locateIp p with
+  | none => .bytes p
+  | some (off, ver) =>
+    if p.length < off + 40 then .bytes p
+    else
+      match ver with
+      | .v4 => hashV4FlowHttp (p.drop off)
+      | .v6 => hashV6FlowHttp (p.drop off)
 
 def hashV4FlowTls (ip : Bytes) : Option HashIn :=
   if ip.length < 20 then none
@@ -366,12 +407,14 @@ def hashV6FlowTls (ip : Bytes) : Option HashIn :=
 
 /-- TLS `hash_flow`: `None` = the dispatcher discards the frame. -/
 def hashInputTls (p : Bytes) : Option HashIn :=
-  if p.length < ipStart p + 40 then none
-  else
-    let ip := p.drop (ipStart p)
-    if byte ip 0 / 16 = 4 then hashV4FlowTls ip
-    else if byte ip 0 / 16 = 6 then hashV6FlowTls ip
-    else none
+  match locateIp p with
+  | none => none
+  | some (off, ver) =>
+    if p.length < off + 40 then none
+    else
+      match ver with
+      | .v4 => hashV4FlowTls (p.drop off)
+      | .v6 => hashV6FlowTls (p.drop off)
 
 /-- `h.checked_rem(n).unwrap_or(0)`. -/
 def remOr0 (h n : Nat) : Nat := if n = 0 then 0 else h % n
